@@ -1,4 +1,5 @@
 import BasicModel.Lemmas.Renum
+import BasicModel.Lemmas.RenumListing
 /-
   C14 — RENUM rewrites a line (lexer/parser part: `Line::renum`).
 
@@ -116,6 +117,375 @@ example : applyReplacements [((17, 20), 1000), ((21, 24), 5)] "?\"é日本\":ON 
 example : visitStmts [(100, 1000), (300, 7)]
     [.goto (0, 4) (.single (5, 8) n100), .gosub (9, 14) (.single (15, 18) n200),
      .run (19, 22) (.single (22, 22) nNone)] = [((5, 8), 1000)] := by decide +kernel
+
+/-! ## RENUM on the whole listing (`Listing::renum` with `Line::renum`)
+
+  Lemmas: `Lemmas/RenumListing.lean`.  `l` is the program store before, `l'` after;
+  `WF` is the store invariant of C15; `Listing.AllParse l`: every stored line parses (at run time
+  `Runtime::renum` (`doRenum`) reports the pending compile errors instead of renumbering when
+  `indirect_errors` is not empty, i.e. it only renumbers a listing that compiled — see the finding
+  below for what `Listing::renum` does otherwise);
+  `ch` is the `changes` map; `Listing.renumMap ch n` is the new number of `n` (`n` itself when `n` is
+  not renumbered); `a b c` are `new_start`, `old_start`, `step`.
+
+  * `renum_source`, `renum_lines`, `renum_length`, `renum_order`: the new store is the old one mapped
+    line by line; same number of lines, same order, numbers strictly ascending;
+  * `renumMap_strictMono`, `renumMap_kept`, `renumMap_new`, `renumMap_le`, `renumMap_not_key`: the
+    renumbering function; `wf_renum_full`: the store invariant is kept;
+  * `renum_tokens`: tokens change only at line-number operands naming a renumbered line;
+  * `renum_refs_consistent`, `renum_position`, `operand_rewrite`: references stay consistent;
+  * `renum_error_iff`, `renum_step_zero`, `renum_fails_iff`, `renum_collision`, `renum_overflow`:
+    failure returns no new listing, and exactly when it happens;
+  * FINDING `renum_unparsable_line_lost`, `renum_unparsable_order_changes`: without `AllParse` a
+    line can be lost / the order can change. -/
+
+section Listing
+open Thm.C15
+
+/-- RENUM maps the store line by line: the line stored under `k` is stored under `renumMap ch k`
+    and becomes `lineRenum ch line`.  Nothing is added, dropped or reordered; the recorded compile
+    errors are carried over unchanged; the new map has a root iff it is not empty. -/
+theorem renum_source {l l' : Listing} {a b c : Nat} (hl : WF l) (hp : l.AllParse)
+    (h : l.renum lineRenum a b c = .ok l') :
+    ∃ ch, Listing.renumPlan (l.source.map (·.1)) a b c = .ok ch ∧
+      l'.source = l.source.map (fun p => (Listing.renumMap ch p.1, lineRenum ch p.2)) ∧
+      l'.indirectErrors = l.indirectErrors ∧ l'.directErrors = l.directErrors ∧
+      l'.rooted = !l.source.isEmpty :=
+  Listing.renum_source hl hp h
+
+/-- the lines of the new program are the rewritten lines of the old one, in the same order -/
+theorem renum_lines {l l' : Listing} {a b c : Nat} (hl : WF l) (hp : l.AllParse)
+    (h : l.renum lineRenum a b c = .ok l') :
+    ∃ ch, Listing.renumPlan (l.source.map (·.1)) a b c = .ok ch ∧
+      l'.lines = l.lines.map (lineRenum ch) :=
+  Listing.renum_lines hl hp h
+
+/-- RENUM keeps the number of lines -/
+theorem renum_length {l l' : Listing} {a b c : Nat} (hl : WF l) (hp : l.AllParse)
+    (h : l.renum lineRenum a b c = .ok l') : l'.source.length = l.source.length :=
+  Listing.renum_length hl hp h
+
+/-- the `i`-th line of the new program is the rewritten `i`-th line of the old one -/
+theorem renum_nth {l l' : Listing} {a b c : Nat} (hl : WF l) (hp : l.AllParse)
+    (h : l.renum lineRenum a b c = .ok l') :
+    ∃ ch, Listing.renumPlan (l.source.map (·.1)) a b c = .ok ch ∧
+      ∀ i : Nat, l'.source[i]? =
+        (l.source[i]?).map (fun p : Nat × Line => (Listing.renumMap ch p.1, lineRenum ch p.2)) :=
+  Listing.renum_getElem? hl hp h
+
+/-- the order of the lines is unchanged: the new line numbers are the old ones mapped in place, and
+    they are strictly ascending -/
+theorem renum_order {l l' : Listing} {a b c : Nat} (hl : WF l) (hp : l.AllParse)
+    (h : l.renum lineRenum a b c = .ok l') :
+    ∃ ch, Listing.renumPlan (l.source.map (·.1)) a b c = .ok ch ∧
+      l'.source.map (·.1) = (l.source.map (·.1)).map (Listing.renumMap ch) ∧
+      (l'.source.map (·.1)).Pairwise (· < ·) := by
+  obtain ⟨ch, h1, h2⟩ := Listing.renum_keys hl hp h
+  exact ⟨ch, h1, h2, Listing.keys_pairwise (Listing.wf_renum_full hl hp h)⟩
+
+/-- the renumbering function is strictly monotone on the line numbers of the program -/
+theorem renumMap_strictMono {l : Listing} {a b c : Nat} {ch : List (Nat × Nat)} (hl : WF l)
+    (h : Listing.renumPlan (l.source.map (·.1)) a b c = .ok ch) :
+    ∀ i j, i ∈ l.source.map (·.1) → j ∈ l.source.map (·.1) → i < j →
+      Listing.renumMap ch i < Listing.renumMap ch j :=
+  Listing.renumMap_strictMono (Listing.keys_pairwise hl) (Listing.keys_bounded hl) h
+
+/-- numbers below `old_start` are kept (line or not) -/
+theorem renumMap_kept {ks : List Nat} {a b c : Nat} {ch : List (Nat × Nat)}
+    (h : Listing.renumPlan ks a b c = .ok ch) {k : Nat} (hk : k < b) : Listing.renumMap ch k = k :=
+  Listing.renumMap_kept h hk
+
+/-- the lines numbered `≥ old_start` get `new_start, new_start + step, …` in order -/
+theorem renumMap_new {l : Listing} {a b c : Nat} {ch : List (Nat × Nat)} (hl : WF l)
+    (h : Listing.renumPlan (l.source.map (·.1)) a b c = .ok ch) (i : Nat)
+    (hi : i < ((l.source.map (·.1)).filter (fun k => decide (k ≥ b))).length) :
+    Listing.renumMap ch (((l.source.map (·.1)).filter (fun k => decide (k ≥ b)))[i]) = a + c * i :=
+  Listing.renumMap_new (Listing.keys_pairwise hl) h i hi
+
+/-- every new line number is a line number (≤ 65529) -/
+theorem renumMap_le {l : Listing} {a b c : Nat} {ch : List (Nat × Nat)} (hl : WF l)
+    (h : Listing.renumPlan (l.source.map (·.1)) a b c = .ok ch) :
+    ∀ k ∈ l.source.map (·.1), Listing.renumMap ch k ≤ 65529 :=
+  Listing.renumMap_le (Listing.keys_pairwise hl) (Listing.keys_bounded hl) h
+
+/-- a number that names no line of the program is not changed (so a dangling reference stays) -/
+theorem renumMap_not_key {ks : List Nat} {a b c : Nat} {ch : List (Nat × Nat)}
+    (h : Listing.renumPlan ks a b c = .ok ch) {k : Nat} (hk : k ∉ ks) : Listing.renumMap ch k = k :=
+  Listing.renumMap_not_key h hk
+
+/-- RENUM (with the real `Line::renum`) keeps the store invariant -/
+theorem wf_renum_full {l l' : Listing} {a b c : Nat} (hl : WF l) (hp : l.AllParse)
+    (h : l.renum lineRenum a b c = .ok l') : WF l' :=
+  Listing.wf_renum_full hl hp h
+
+/-- what RENUM does to one line-number operand `(col, n)`: replaced by `(col, renumMap ch n)` when
+    `n` names a line of the program numbered `≥ old_start`, left alone otherwise -/
+theorem operand_rewrite {l : Listing} {a b c : Nat} {ch : List (Nat × Nat)} (hl : WF l)
+    (h : Listing.renumPlan (l.source.map (·.1)) a b c = .ok ch) (r : Col × Nat) :
+    rewrite ch r =
+      if r.2 ∈ l.source.map (·.1) ∧ b ≤ r.2 then some (r.1, Listing.renumMap ch r.2) else none :=
+  Listing.rewrite_plan (Listing.keys_pairwise hl) h r
+
+/-- tokens change only at line-number operands: a line none of whose operands names a renumbered
+    line (a line of the program numbered `≥ old_start`) keeps its tokens; otherwise its tokens are the
+    lexing of its listed text in which exactly those operands (`Listing.renumReps`: in visiting
+    order, each with the new number of the line it names) have been replaced by the digits of the
+    new numbers -/
+theorem renum_tokens {l l' : Listing} {a b c : Nat} (hl : WF l) (hp : l.AllParse)
+    (h : l.renum lineRenum a b c = .ok l') :
+    ∃ ch, Listing.renumPlan (l.source.map (·.1)) a b c = .ok ch ∧
+      l'.lines = l.lines.map (lineRenum ch) ∧
+      ∀ p ∈ l.source, ∀ ast, Parse.parse p.2.number p.2.tokens = .ok ast →
+        ((∀ r ∈ operandsStmts ast, ¬ (r.2 ∈ l.source.map (·.1) ∧ b ≤ r.2)) →
+          (lineRenum ch p.2).tokens = p.2.tokens) ∧
+        ((∃ r ∈ operandsStmts ast, r.2 ∈ l.source.map (·.1) ∧ b ≤ r.2) →
+          (lineRenum ch p.2).tokens =
+            (lex (applyReplacements (Listing.renumReps (l.source.map (·.1)) b ch ast)
+              (printTokens p.2.tokens))).2) :=
+  Listing.renum_tokens hl hp h
+
+/-- a line number that names a line of the old program names, after renumbering, the line at the
+    same position of the new program -/
+theorem renum_position {l l' : Listing} {a b c : Nat} (hl : WF l) (hp : l.AllParse)
+    (h : l.renum lineRenum a b c = .ok l') :
+    ∃ ch, Listing.renumPlan (l.source.map (·.1)) a b c = .ok ch ∧
+      ∀ n ∈ l.source.map (·.1),
+        Listing.renumMap ch n ∈ l'.source.map (·.1) ∧
+        (l'.source.map (·.1)).idxOf (Listing.renumMap ch n) = (l.source.map (·.1)).idxOf n ∧
+        ∀ i : Nat, (l.source.map (·.1))[i]? = some n →
+          (l'.source.map (·.1))[i]? = some (Listing.renumMap ch n) :=
+  Listing.renum_position hl hp h
+
+/-- references are consistent: a line-number operand `(col, n)` of a line of the program that names
+    an existing line `n` is, after RENUM, the number `renumMap ch n` of the line at the same position
+    of the new program, which is the rewritten old line `n`; the operand's text is rewritten exactly
+    when `n ≥ old_start` (otherwise `renumMap ch n = n`).  A dangling operand is not rewritten. -/
+theorem renum_refs_consistent {l l' : Listing} {a b c : Nat} (hl : WF l) (hp : l.AllParse)
+    (h : l.renum lineRenum a b c = .ok l') :
+    ∃ ch, Listing.renumPlan (l.source.map (·.1)) a b c = .ok ch ∧
+      ∀ p ∈ l.source, ∀ ast, Parse.parse p.2.number p.2.tokens = .ok ast →
+        ∀ r ∈ operandsStmts ast,
+          (r.2 ∈ l.source.map (·.1) →
+            Listing.renumMap ch r.2 ∈ l'.source.map (·.1) ∧
+            (l'.source.map (·.1)).idxOf (Listing.renumMap ch r.2) = (l.source.map (·.1)).idxOf r.2 ∧
+            (∀ x, l.get? r.2 = some x → l'.get? (Listing.renumMap ch r.2) = some (lineRenum ch x)) ∧
+            (b ≤ r.2 → rewrite ch r = some (r.1, Listing.renumMap ch r.2)) ∧
+            (r.2 < b → rewrite ch r = none ∧ Listing.renumMap ch r.2 = r.2)) ∧
+          (r.2 ∉ l.source.map (·.1) → rewrite ch r = none ∧ Listing.renumMap ch r.2 = r.2) :=
+  Listing.renum_refs_consistent hl hp h
+
+/-- RENUM fails exactly when its plan fails; a failure returns no listing at all (the caller keeps
+    the old one), so a failed RENUM changes nothing -/
+theorem renum_error_iff (f : List (Nat × Nat) → Line → Line) (l : Listing) (a b c : Nat) :
+    (∃ e, l.renum f a b c = .error e) ↔
+      (∃ e, Listing.renumPlan (l.source.map (·.1)) a b c = .error e) :=
+  Listing.renum_error_iff f l a b c
+
+/-- a step of 0 is refused -/
+theorem renum_step_zero (f : List (Nat × Nat) → Line → Line) (l : Listing) (a b : Nat) :
+    l.renum f a b 0 = err Code.illegalFunctionCall :=
+  Listing.renum_step_zero f l a b
+
+/-- exactly when RENUM fails on a well-formed store: the step is 0; or there is a line to renumber
+    (numbered `≥ old_start`) and either a kept line (numbered `< old_start`) is numbered
+    `≥ new_start`, or some new number `new_start + step * i` exceeds 65529 or `+ step` overflows `u16` -/
+theorem renum_fails_iff (f : List (Nat × Nat) → Line → Line) {l : Listing} (hl : WF l) (a b c : Nat) :
+    (∃ e, l.renum f a b c = .error e) ↔
+      c = 0 ∨ ((l.source.map (·.1)).filter (fun k => decide (k ≥ b)) ≠ [] ∧
+        ((∃ k ∈ l.source.map (·.1), k < b ∧ a ≤ k) ∨
+          ∃ i, i < ((l.source.map (·.1)).filter (fun k => decide (k ≥ b))).length ∧
+            (a + c * i > 65529 ∨ a + c * i + c > 65535))) :=
+  Listing.renum_fails_iff f hl a b c
+
+/-- collision: a kept line at or above the first new number — "Illegal function call" -/
+theorem renum_collision (f : List (Nat × Nat) → Line → Line) {l : Listing} (hl : WF l)
+    {a b c k j : Nat} (hk : k ∈ l.source.map (·.1)) (hkb : k < b) (hka : a ≤ k)
+    (hj : j ∈ l.source.map (·.1)) (hjb : b ≤ j) :
+    l.renum f a b c = err Code.illegalFunctionCall :=
+  Listing.renum_collision f hl hk hkb hka hj hjb
+
+/-- a new number that does not fit — "Overflow" -/
+theorem renum_overflow (f : List (Nat × Nat) → Line → Line) {l : Listing} (hl : WF l)
+    {a b c i : Nat} (hc : c ≠ 0) (hkept : ∀ k ∈ l.source.map (·.1), k < b → k < a)
+    (hi : i < ((l.source.map (·.1)).filter (fun k => decide (k ≥ b))).length)
+    (hbig : a + c * i > 65529 ∨ a + c * i + c > 65535) :
+    l.renum f a b c = err Code.overflow :=
+  Listing.renum_overflow f hl hc hkept hi hbig
+
+/-! ### non-vacuity: a concrete program -/
+
+/-- `10` (a line with no tokens), `20 END`, `30 CLS` -/
+def prog : Listing :=
+  { source := [(10, ⟨some 10, []⟩), (20, ⟨some 20, [.word .end]⟩), (30, ⟨some 30, [.word .cls]⟩)],
+    rooted := true }
+
+theorem parse_end (n : Option Nat) : Parse.parse n [.word .end] = .ok [.end (0, 3)] := by
+  simp [Parse.parse, Parse.parseTokens, Parse.fuelFor, Parse.statements, Parse.statement, Parse.peek,
+    Parse.next, Parse.nextLoop, Parse.col, Parse.isRem, StateT.run, bind, StateT.bind, Except.bind, get,
+    getThe, MonadStateOf.get, StateT.get, pure, StateT.pure, Except.pure, set, StateT.set, modify,
+    modifyGet, MonadStateOf.modifyGet, StateT.modifyGet, Except.map, Token.text, Word.text]
+
+theorem parse_cls (n : Option Nat) : Parse.parse n [.word .cls] = .ok [.cls (0, 3)] := by
+  simp [Parse.parse, Parse.parseTokens, Parse.fuelFor, Parse.statements, Parse.statement, Parse.peek,
+    Parse.next, Parse.nextLoop, Parse.col, Parse.isRem, StateT.run, bind, StateT.bind, Except.bind, get,
+    getThe, MonadStateOf.get, StateT.get, pure, StateT.pure, Except.pure, set, StateT.set, modify,
+    modifyGet, MonadStateOf.modifyGet, StateT.modifyGet, Except.map, Token.text, Word.text]
+
+theorem prog_wf : WF prog := ⟨by unfold SortedList.Sorted; decide, by decide, by decide⟩
+
+theorem prog_allParse : prog.AllParse := by
+  intro p hp
+  simp only [prog, List.mem_cons, List.not_mem_nil, or_false] at hp
+  rcases hp with rfl | rfl | rfl
+  · exact ⟨_, parse_empty _⟩
+  · exact ⟨_, parse_end _⟩
+  · exact ⟨_, parse_cls _⟩
+
+theorem prog_plan : Listing.renumPlan (prog.source.map (·.1)) 100 20 10 = .ok [(20, 100), (30, 110)] := by
+  decide
+
+/-- `RENUM 100,20,10` on `prog`: line 10 is kept, 20 and 30 become 100 and 110; three lines, same
+    order, same tokens (there are no references) — through `renum_source` -/
+example : ∃ l', prog.renum lineRenum 100 20 10 = .ok l' ∧
+    l'.source = [(10, ⟨some 10, []⟩), (100, ⟨some 100, [.word .end]⟩), (110, ⟨some 110, [.word .cls]⟩)] ∧
+    l'.source.length = prog.source.length ∧ WF l' := by
+  obtain ⟨l', h⟩ := (Listing.renum_ok_iff lineRenum prog 100 20 10).2 ⟨_, prog_plan⟩
+  refine ⟨l', h, ?_, renum_length prog_wf prog_allParse h, wf_renum_full prog_wf prog_allParse h⟩
+  obtain ⟨ch, h1, h2, _⟩ := renum_source prog_wf prog_allParse h
+  rw [prog_plan] at h1
+  cases h1
+  rw [h2]
+  simp only [prog, List.map_cons, List.map_nil]
+  rw [Listing.lineRenum_no_operands _ ⟨some 10, []⟩ [] (parse_empty _) rfl,
+    Listing.lineRenum_no_operands _ ⟨some 20, [.word .end]⟩ _ (parse_end _) rfl,
+    Listing.lineRenum_no_operands _ ⟨some 30, [.word .cls]⟩ _ (parse_cls _) rfl]
+  decide
+
+/-- the renumbering function of that plan: strictly monotone on 10, 20, 30; 10 kept; 20, 30 ↦ 100,
+    110; a number that names no line (25, 40) is not changed -/
+example : Listing.renumMap [(20, 100), (30, 110)] 10 < Listing.renumMap [(20, 100), (30, 110)] 20 :=
+  renumMap_strictMono prog_wf prog_plan 10 20 (by decide) (by decide) (by decide)
+
+example : (([10, 20, 30, 25, 40] : List Nat).map (Listing.renumMap [(20, 100), (30, 110)])) =
+    [10, 100, 110, 25, 40] := by decide
+
+example : Listing.renumMap [(20, 100), (30, 110)] 40 = 40 :=
+  renumMap_not_key prog_plan (by decide)
+
+example : Listing.renumMap [(20, 100), (30, 110)] 30 = 100 + 10 * 1 :=
+  renumMap_new prog_wf prog_plan 1 (by decide)
+
+/-- line 20 of `prog` is line 100 afterwards, at the same position, and is the rewritten line 20 -/
+example (l' : Listing) (h : prog.renum lineRenum 100 20 10 = .ok l') :
+    (l'.source.map (·.1)).idxOf 100 = 1 ∧ l'.get? 100 = some (lineRenum [(20, 100), (30, 110)] ⟨some 20, [.word .end]⟩) := by
+  obtain ⟨ch, h1, hpos⟩ := renum_position prog_wf prog_allParse h
+  obtain ⟨ch', h1', hget⟩ := Listing.renum_get? prog_wf prog_allParse h
+  rw [prog_plan] at h1 h1'
+  cases h1
+  cases h1'
+  exact ⟨(hpos 20 (by decide)).2.1, hget 20 _ (by decide)⟩
+
+/-- 20.0f32, 10.0f32, 40.0f32 as the parser stores line numbers -/
+def n20 : UInt32 := 0x41A00000
+def n10 : UInt32 := 0x41200000
+def n40 : UInt32 := 0x42200000
+
+/-- operands under that plan (the kernel cannot run the parser on a line with a line number
+    operand — it stores it through the opaque `Float32.ofNat` — so this is stated on the AST):
+    in `GOTO 20:GOSUB 10:GOTO 40` only the reference to the renumbered line 20 is replaced; 10 is
+    kept (below `old_start`), 40 is dangling -/
+example : Listing.renumReps [10, 20, 30] 20 [(20, 100), (30, 110)]
+    [.goto (0, 4) (.single (5, 7) n20), .gosub (8, 13) (.single (14, 16) n10),
+     .goto (17, 21) (.single (22, 24) n40)] = [((5, 7), 100)] := by decide +kernel
+
+example : rewrite [(20, 100), (30, 110)] ((5, 7), 20) = some ((5, 7), 100) ∧
+    rewrite [(20, 100), (30, 110)] ((14, 16), 10) = none ∧
+    rewrite [(20, 100), (30, 110)] ((22, 24), 40) = none := by
+  have h := fun r => operand_rewrite prog_wf prog_plan r
+  refine ⟨?_, ?_, ?_⟩
+  · rw [h]; decide
+  · rw [h]; decide
+  · rw [h]; decide
+
+example : applyReplacements [((5, 7), 100)] "GOTO 20:GOSUB 10:GOTO 40".toList =
+    "GOTO 100:GOSUB 10:GOTO 40".toList := by decide +kernel
+
+/-- the three ways to fail, on `prog` -/
+example : prog.renum lineRenum 100 20 0 = err Code.illegalFunctionCall := renum_step_zero _ _ _ _
+
+example : prog.renum lineRenum 10 20 10 = err Code.illegalFunctionCall :=
+  renum_collision _ prog_wf (k := 10) (j := 20) (by decide) (by decide) (by decide) (by decide) (by decide)
+
+example : prog.renum lineRenum 65525 20 10 = err Code.overflow :=
+  renum_overflow _ prog_wf (i := 1) (by decide) (by decide) (by decide) (by decide)
+
+example : ∃ e, prog.renum lineRenum 65525 20 10 = .error e :=
+  (renum_fails_iff _ prog_wf 65525 20 10).2 (by decide)
+
+/-! ### FINDING: a line that does not parse breaks the structure
+
+  `Line::renum` returns a line that does not parse untouched — number included
+  (`lineRenum_unparsable`) — while the other lines move, and `Listing::renum` re-inserts every line
+  under the number it now carries.  So a renumbered line can land on the number the unparsable line
+  still has and be REPLACED by it (a line is lost), or the unparsable line can end up before lines
+  that used to precede it (the order changes).  `AllParse` in the theorems above is therefore
+  necessary.  At run time this is masked: `Runtime::renum` (`doRenum`) does not call
+  `Listing::renum` while the listing has compile errors (`indirect_errors` not empty), and a stored
+  line that does not parse is a compile error. -/
+
+/-- `10` (empty) and `20 1` (a line that does not parse: a statement cannot start with a number) -/
+def badProg : Listing :=
+  { source := [(10, ⟨some 10, []⟩), (20, ⟨some 20, [.literal (.integer ['1'])]⟩)], rooted := true }
+
+theorem badProg_wf : WF badProg := ⟨by unfold SortedList.Sorted; decide, by decide, by decide⟩
+
+theorem badProg_not_allParse : ¬ badProg.AllParse := by
+  intro h
+  obtain ⟨ast, hast⟩ := h (20, ⟨some 20, [.literal (.integer ['1'])]⟩) (by decide)
+  obtain ⟨e, he⟩ := parse_number_first (some 20)
+  rw [he] at hast
+  cases hast
+
+theorem badProg_lines (ch : List (Nat × Nat)) :
+    badProg.lines.map (lineRenum ch) =
+      [⟨(some 10).map (Listing.renumMap ch), []⟩, ⟨some 20, [.literal (.integer ['1'])]⟩] := by
+  obtain ⟨e, he⟩ := parse_number_first (some 20)
+  simp only [badProg, Listing.lines, List.map_cons, List.map_nil]
+  rw [Listing.lineRenum_no_operands ch ⟨some 10, []⟩ [] (parse_empty _) rfl,
+    lineRenum_unparsable ch ⟨some 20, [.literal (.integer ['1'])]⟩ e he]
+
+/-- `RENUM 20,0,10`: line 10 becomes 20, the unparsable line keeps 20 and replaces it: the
+    two-line program has one line left -/
+theorem renum_unparsable_line_lost :
+    ∃ l', badProg.renum lineRenum 20 0 10 = .ok l' ∧
+      l'.source = [(20, ⟨some 20, [.literal (.integer ['1'])]⟩)] ∧
+      l'.source.length < badProg.source.length := by
+  have hplan : Listing.renumPlan (badProg.source.map (·.1)) 20 0 10 = .ok [(10, 20), (20, 30)] := by
+    decide
+  refine ⟨_, by unfold Listing.renum; rw [hplan]; rfl, ?_, ?_⟩
+  · show Listing.rebuild (badProg.lines.map (lineRenum [(10, 20), (20, 30)])) = _
+    rw [badProg_lines]
+    decide
+  · show (Listing.rebuild (badProg.lines.map (lineRenum [(10, 20), (20, 30)]))).length < _
+    rw [badProg_lines]
+    decide
+
+/-- `RENUM 100`: line 10 becomes 100, the unparsable line keeps 20: it now comes first -/
+theorem renum_unparsable_order_changes :
+    ∃ l', badProg.renum lineRenum 100 0 10 = .ok l' ∧
+      l'.source = [(20, ⟨some 20, [.literal (.integer ['1'])]⟩), (100, ⟨some 100, []⟩)] ∧
+      l'.lines ≠ badProg.lines.map (lineRenum [(10, 100), (20, 110)]) := by
+  have hplan : Listing.renumPlan (badProg.source.map (·.1)) 100 0 10 = .ok [(10, 100), (20, 110)] := by
+    decide
+  refine ⟨_, by unfold Listing.renum; rw [hplan]; rfl, ?_, ?_⟩
+  · show Listing.rebuild (badProg.lines.map (lineRenum [(10, 100), (20, 110)])) = _
+    rw [badProg_lines]
+    decide
+  · show (Listing.rebuild (badProg.lines.map (lineRenum [(10, 100), (20, 110)]))).map (·.2) ≠ _
+    rw [badProg_lines]
+    decide
+
+end Listing
 
 end C14
 end Thm
